@@ -1146,14 +1146,22 @@ def check(run):
                     'every run by the streams ua-styles, random-counter-style, raw-dictionaries, scope-renders',
                     'model/C15StyleSpec.v and the reference interpreter of model/C15Scope.v as renditions of CSS Counter '
                     'Styles 3 / CSS 2.1 12.4 + CSS Lists 3 (read from the specification text)',
-                    'toc-renders monitor judged in Python']
+                    'toc-renders monitor judged in Python',
+                    'source tie (props C15_source_*): tools/py2coq.py (printer, option <branch>) and the interpreter '
+                    'coq/base/Py.v with its primitives prim_apply (len, x[i], %, //, abs, join, reversed); '
+                    'model/C15Builtins.v: Python strings as Coq strings (one character per ascii), a symbol as '
+                    '(\'string\', s) / (\'url\', u)']
     run.assumptions += ['the re-layout loop theorem is about an abstract model (model/C15Loop.v); the implementation side is the '
                         'toc-renders monitor: a wrong page number after an early exit is a violation, after 8 passes the '
                         'outcome not-converged',
                         'target-text(), target-counters() and the remake_page caching are monitored through full renders only',
                         'pad counts code points (Python len); CSS counts grapheme clusters: symbols with combining marks are not generated',
                         'counter scoping: instantiation of a counter by a bare counter()/counters() use (CSS Lists 3) is not part of '
-                        'the property text and not demanded']
+                        'the property text and not demanded',
+                        'regenerated from counters.py and proved equal to the model for every input: symbol() and the cyclic, '
+                        'fixed, alphabetic and numeric branches of render_value (step 3); the recursive call of render_value is '
+                        'an oracle there; resolve_counter, the extends loop, the range test, the symbolic and additive branches '
+                        'and steps 4-6 (pad, negative) are tied to the model by the correspondence streams only']
     # ---- stream a: predefined styles
     (st, ua), = common.run_impl('impl_c15', 'ua_dump', [None])
     if st != 'ok':
